@@ -14,7 +14,7 @@ applies=true; git apply --check $SEED/patch.diff 2>/dev/null || applies=false
 if [ $applies = false ]; then echo "{\"applies\":false}" > $OUT; exit 1; fi
 git apply $SEED/patch.diff
 suite=$(cargo test --workspace --no-fail-fast --offline 2>&1 | grep -E "^test result" | awk '{p+=$4; f+=$6} END {print p" "f}')
-cp $SEED/demo.rs crates/$crate/tests/seed_demo.rs
+mkdir -p crates/$crate/tests; cp $SEED/demo.rs crates/$crate/tests/seed_demo.rs
 cargo test -p essential-$crate --test seed_demo --offline >/tmp/confirm/demo_with.log 2>&1; with=$?
 git apply -R $SEED/patch.diff
 cargo test -p essential-$crate --test seed_demo --offline >/tmp/confirm/demo_without.log 2>&1; without=$?
